@@ -493,6 +493,30 @@ pub fn c07_native<G: AffineRepr + 'static>(case: &crate::scen_c07::BatchCase, se
         let (pts, scs, ipp) = proofs[0].verif_parts();
         let (l, r, a, b) = ipp.verif_parts();
         let altered = R1CSProof::verif_from_parts(pts, scs, InnerProductProof::verif_from_parts(l.to_vec(), r.to_vec(), a, b + G::ScalarField::from(5u64)));
+        // an altered member handed over through iterators without size information must still be found
+        for (mode, what) in ["a filtered iterator", "iter::from_fn", "a chain of two iterators"].iter().enumerate() {
+            for bad in [0usize, 1, 2] {
+                let shrs0: Vec<_> = (0..3).map(|_| fork_for_verifier(&shapes[0], &shrs[0])).collect();
+                let mut ts: Vec<Transcript> = (0..3).map(|_| new_verifier_transcript(&shapes[0])).collect();
+                let mut insts = vec![];
+                for (i, vt) in ts.iter_mut().enumerate() {
+                    insts.push((build_verifier(&shapes[0], &shrs0[i], vt), if i == bad { &altered } else { &proofs[0] }));
+                }
+                let mut rng = rand_chacha::ChaChaRng::seed_from_u64(seed ^ 0xa1fd);
+                let ok = match mode {
+                    0 => batch_verify(&mut rng, insts.into_iter().filter(|_| true), &pc, &bp).is_ok(),
+                    1 => {
+                        let mut it = insts.into_iter();
+                        batch_verify(&mut rng, std::iter::from_fn(move || it.next()), &pc, &bp).is_ok()
+                    }
+                    _ => {
+                        let tail = insts.split_off(1);
+                        batch_verify(&mut rng, insts.into_iter().chain(tail.into_iter().skip_while(|_| false)), &pc, &bp).is_ok()
+                    }
+                };
+                out.push((format!("batch of 3 copies through {}, altered member at {}: rejected", what, bad), !ok));
+            }
+        }
         for kk in [9usize, 17] {
             for bad in [None, Some(0usize), Some(kk / 2), Some(kk - 1)] {
                 let shrs0: Vec<_> = (0..kk).map(|_| fork_for_verifier(&shapes[0], &shrs[0])).collect();
